@@ -190,4 +190,14 @@ PROPS = {
         "assumptions": ["a RocksDB write (single put / delete / WriteBatch) is atomic and durable in order", "the crash is modelled as an unwind before the write, followed by discarding all in-memory state"],
         "trusted_base": ["hook: storage.rs verif_hook::before_write (cargo feature verif)"],
     },
+    "C17": {
+        "ops": [("c17", "RunC17", {"quick": 2, "thorough": 12})],
+        "rule": "whole clients prepared identically (proven peer, two scripts, a pending matched record with all but one body delivered, the next filter batch, a proof for "
+                "a heavier branch outstanding); operations: set_scripts through the RPC implementation, BlockFilters through FilterProtocol, the last SendBlock through "
+                "SyncProtocol, SendLastStateProof (fork switch with rollback) through LightClientProtocol; each alone with the global lock probed (try_write) at every "
+                "database write; every ordered pair (A, B) with A paused on its own thread before each of its writes, B started on a second thread, A resumed; the final "
+                "store, tip, last-n, records, cell index and in-memory map must equal the outcome of A;B or B;A, and both threads must finish",
+        "assumptions": ["one pause point per run (two-operation schedules)", "thread scheduling beyond the forced pause is whatever the OS does"],
+        "trusted_base": ["hook: storage.rs verif_hook (cargo feature verif)"],
+    },
 }
